@@ -23,7 +23,7 @@ def _false(env):
     return env.not_(env.true())
 
 
-def h_trace(env, n=2, min_zero=True, second_tomo=True, space="line"):
+def h_trace(env, n=2, min_zero=True, second_tomo=True, space="line", labels=False):
     rb = env.module("ribana")
     cm = env.module("cryomotl")
     ent, ext = [], []
@@ -60,6 +60,10 @@ def h_trace(env, n=2, min_zero=True, second_tomo=True, space="line"):
         env.assume(env.not_(env.eq(d2(a, b), 0.0)))
     # NOTE: links of length exactly max_distance / min_distance are NOT excluded: the interval is (min, max]
     me, mx = mk_motl(env, cm, ent), mk_motl(env, cm, ext)
+    if labels:
+        # descending, gapped row labels (the same in both site lists, which describe the same particles): what a selection without index reset leaves
+        me.df.index = [2 * len(ent) - 2 * i + 1 for i in range(len(ent))]
+        mx.df.index = [2 * len(ext) - 2 * i + 1 for i in range(len(ext))]
     out = rb.trace_chains(me, mx, dmax, dmin)
     df = out.df
     ids = sorted(float(v) for v in df["subtomo_id"])
@@ -313,6 +317,7 @@ def jobs(tier, seed):
     fams = [("h_family", {"fam": seed * 1000 + f, "n": 5 if f % 2 == 0 else 4, "sym": [f % 4], "min_zero": f % 3 != 0}) for f in range(nf)]
     scen = [("h_scenario", {"kind": "head_cut_then_append"}), ("h_scenario", {"kind": "prefix_kept"}), ("h_scenario", {"kind": "both_sides"}),
             ("h_scenario3d", {"kind": "tail_cut"}), ("h_scenario3d", {"kind": "both_sides_head_cut"}), ("h_scenario3d", {"kind": "ring"}), ("h_two_tomograms", {}),
+            ("h_trace", {"n": 2, "min_zero": True, "labels": True}),     # descending, gapped row labels (round 5)
             ("h_scenario3d", {"kind": "stale_flag"})]     # ten-particle history; in the quick tier since round 5 (it was thorough-only and the only way C19-9 is seen)
     if tier == "thorough":
         scen += [("h_scenario", {"kind": k, "order": list(o)}) for k in ("head_cut_then_append", "prefix_kept", "both_sides") for o in itertools.permutations(range(4)) if list(o) != [0, 1, 2, 3] and (k != "both_sides" or o[0] < o[1])]
